@@ -682,6 +682,13 @@ func (r *RPC) Cut(reason string) {
 		sd.flight = nil
 	}
 	d1, d2 := c.dur(c.NoticeMin, c.NoticeMax), c.dur(c.NoticeMin, c.NoticeMax)
+	if reason == "random, after message" && c.Rng.IntN(2) == 0 {
+		// the receiver learns of the break at once (a reset that arrives on the heels of the message): the "learns"
+		// event is due now, so the scheduler may fire it anywhere inside the receiver's handling of that message —
+		// e.g. between applying an event and handing its acknowledgement to the transport
+		d2 = 0
+		c.Faults["fed.cut_noticed_at_once"]++
+	}
 	c.mu.Unlock()
 	c.After(d1, fmt.Sprintf("rpc%d client learns of cut", r.ID), func() {
 		c.mu.Lock()
